@@ -29,6 +29,9 @@ Null == [none |-> TRUE]
 \* an event whose call was refused may log  same |-> TRUE  instead of the
 \* state: the harness compared the full projection before and after the call
 IsSame(e) == "same" \in DOMAIN e /\ e.same
+\* a call taken without looking at the object afterwards: only the result is
+\* known (the state is shown by a later event of the trace)
+IsBlind(e) == "blind" \in DOMAIN e /\ e.blind
 
 Observed(e, s) ==      \* clauses comparing the logged state with model state s
   << <<"active", e.active = s.active>>,
@@ -68,10 +71,11 @@ Consume ==
      ELSE
         LET r == A!Step(st, e.call)
             checks == << <<"result", e.res = r.res>> >>
-                          \o (IF IsSame(e)
+                          \o (IF IsBlind(e) THEN <<>>
+                              ELSE IF IsSame(e)
                               THEN << <<"unchanged", r.st = st>> >>
                               ELSE Observed(e, r.st))
-                          \o (IF IsSame(e) THEN <<>>
+                          \o (IF IsSame(e) \/ IsBlind(e) THEN <<>>
                               ELSE << <<"MODEL-LAW", LawOK(r.st)>> >>)
             c == AllFails(checks)
             fs == FailSet(checks)
